@@ -417,15 +417,15 @@ func c37Check(
 		}
 	}
 
+	if len(model) > 0 && (strings.Count(path, "/") >= 1 || ev.op == "set") {
+		r.Sample(map[string]any{"history": path, "event_class": evclass, "model_present": want, "table_traverse": trav, "all_observers_agree": !bad})
+	}
+
 	switch {
 	case bad:
 		r.Outcome("violation/" + evclass)
 	default:
 		r.Outcome(fmt.Sprintf("ok/%s/present=%d", evclass, len(model)))
-
-		if strings.HasPrefix(evclass, "set-present") || evclass == "remove-one-of-several" {
-			r.Sample(map[string]any{"history": path, "present": want})
-		}
 	}
 }
 
